@@ -209,11 +209,12 @@ def h_read(cx, layout, reps, cfgs, T=2, names=('f_A', 'f_1'), req=('f_A', 0, Non
     sel = [list(c) for c in cfgs]
     if files is not None:
         # explicit selection of configurations (every second one, replica by replica)
-        sel = [list(c)[::2] for c in cfgs]
+        sel = [list(c)[::2] for c in cfgs] if files is True else [list(c) for c in cfgs]
+        order = {True: lambda l: l, 'lex': lambda l: sorted(l, key=str), 'desc': lambda l: sorted(l, reverse=True)}[files]   # order in which the caller lists them
         if layout == 'c':
-            kw['files'] = [['%s_%s_n%d' % (prefix, r, c) for c in s] for r, s in zip(reps, sel)]
+            kw['files'] = [['%s_%s_n%d' % (prefix, r, c) for c in order(s)] for r, s in zip(reps, sel)]
         elif layout == 'o':
-            kw['files'] = [['cfg%d' % c for c in s] for s in sel]
+            kw['files'] = [['cfg%d' % c for c in order(s)] for s in sel]
     try:
         try:
             res = call(cx, layout, path, prefix, name, wf, wf2, im=im, **kw)
@@ -269,5 +270,43 @@ def h_cut(cx, layout, reps, cfgs, which, T=2, names=('f_A', 'f_1'), req=('f_A', 
             compare(cx, res, expected(V, prefix, reps, keep, name, wf, wf2, T), 'cut@%s' % target)
         else:
             compare(cx, res, full, 'cut@%s (other correlator)' % target)
+    finally:
+        cleanup(cx)
+
+
+def h_multi(cx, layout, reps, cfgs, T=2, names=('f_A', 'f_1', 'F_V0'), perm=0, keyed=False):
+    """read_sfcf_multi with several correlator names and wave-function indices in one call (nested and keyed output)"""
+    import contextlib
+    import pyerrors.input.sfcf as S
+    prefix = {'c': 'data_c', 'o': 'test', 'a': 'data_a'}[layout]
+    names = list(names)
+    tree, V, tk = build(cx, layout, prefix, reps, cfgs, T, names)
+    path = install(cx, tree, tk, perm)
+    version = {'c': '2.0c', 'o': '2.0', 'a': '2.0a'}[layout]
+    try:
+        try:
+            with contextlib.redirect_stdout(io.StringIO()):
+                res = S.read_sfcf_multi(path, prefix, names, quarks_list=[QUARKS], corr_type_list=[CORRS[n][0] for n in names], noffset_list=[0], wf_list=[0], wf2_list=[0, 1],
+                                        version=version, silent=True, keyed_out=keyed)
+        except core.Realize:
+            raise
+        except Exception as e:
+            cx.fail('reader raised on a well-formed file set', '%s: %s' % (type(e).__name__, e))
+            return
+        sel = [list(c) for c in cfgs]
+        for n in names:
+            for w2 in ([0] if CORRS[n][0] == 'bi' else [0, 1]):
+                if keyed:
+                    key = S.sep.join([n, QUARKS, '0', '0', str(w2)])
+                    if not cx.expect(key in res, 'keyed output has %s' % key.replace(S.sep, '/')):
+                        continue
+                    got = res[key]
+                else:
+                    try:
+                        got = res[n][QUARKS]['0']['0'][str(w2)]
+                    except KeyError as e:
+                        cx.fail('nested output lacks %s wf2=%d' % (n, w2), str(e))
+                        continue
+                compare(cx, got, expected(V, prefix, reps, sel, n, 0, None if CORRS[n][0] == 'bi' else w2, T), 'multi:%s:%s:%d' % (layout, n, w2))
     finally:
         cleanup(cx)
